@@ -106,6 +106,45 @@ def main():
     jcorrupt("joint run: drop the last _consider_line call", j_drop_last, {"missing_event", "final_valid", "final_stopped", "final_scan_count", "final_match_count", "final_vars", "k", "schedule_member"})
     jcorrupt("joint run: one more record handed to the caller", j_yield, {"yielded"})
     jcorrupt("joint run: flip is_valid of the last call", j_event_valid, {"valid"})
+    # ---- the relation "one run" (SameRun.tla) and the error handler inside runs
+    from lib import samerun
+    pairs = []
+    for t in ok[:25]:
+        c = copy.deepcopy(t)
+        pairs.append(samerun.case(t["tid"], t, [samerun.other(c, "same", lines=True)]))
+    _, sv = samerun.validate(pairs)
+    results["same_run_identical_copies_accepted"] = sum(1 for c in pairs if sv[c["tid"]]["verdict"] == "ok")
+    bad_pairs = []
+    for t in ok[:25]:
+        c = copy.deepcopy(t)
+        c["events"][-1]["scan_count"] += 1
+        bad_pairs.append(samerun.case(t["tid"] + 300000, t, [samerun.other(c, "same", lines=True)]))
+    _, sv2 = samerun.validate(bad_pairs)
+    vs = [sv2[c["tid"]]["verdict"] for c in bad_pairs]
+    results["corruptions"].append({"corruption": "same run: add 1 to the last scan_count of the other execution", "applied": len(vs),
+                                   "rejected": sum(1 for x in vs if x != "ok"), "named_field_as_expected": sum(1 for x in vs if x == "event:scan_count"), "verdicts": sorted(set(vs))})
+    etraces = []
+    i = 0
+    while len(etraces) < 40 and i < 400:
+        case = gen.make_case(random.Random(5000 + i), 400000 + i, groups=("core", "errors"))
+        i += 1
+        rec, info = runtrace.run_case(case, "collect")
+        if rec and rec["events"] and rec["events"][-1]["nerrors"] > 0:
+            etraces.append(rec)
+    _, ev = runtrace.validate(etraces, dev=("AboveCellsAsText", "LtIsLe"))
+    eok = [t for t in etraces if ev[t["tid"]][0] == "ok"]
+    results["error_runs_accepted_before_corruption"] = len(eok)
+    muts = []
+    for t in eok[:25]:
+        c = copy.deepcopy(t)
+        c["tid"] = t["tid"] + 100000
+        c["events"][-1]["nerrors"] += 1
+        c["events"][-1]["errlines"] = c["events"][-1]["errlines"] + [0]
+        muts.append(c)
+    _, mv = runtrace.validate(muts, dev=("AboveCellsAsText", "LtIsLe"))
+    vs = [mv[m["tid"]][0] for m in muts]
+    results["corruptions"].append({"corruption": "error run: one more collected error record at the last call", "applied": len(vs),
+                                   "rejected": sum(1 for x in vs if x != "ok"), "named_field_as_expected": sum(1 for x in vs if x == "errors"), "verdicts": sorted(set(vs))})
     os.makedirs(os.path.join(common.VERIF, "selftest"), exist_ok=True)
     with open(os.path.join(common.VERIF, "selftest", "RESULT.json"), "w") as f:
         json.dump(results, f, indent=1)
